@@ -723,3 +723,114 @@ LAWS.append(
         {"quick": 400, "thorough": 6000}, "operand arrays of the linear-algebra kernels and of the collection methods built on them stay bit-for-bit unchanged; repeated query, same answer "
         "(sizes 2..5, batches of 1..70 on one or two axes, float / integer / complex, C / Fortran order / views)", shard=100, mandatory=("n2:>=64", "several-axes", "complex"))
 )
+
+
+# ------------------------------------------------------------------------------------------- constructors copy their arguments
+COPY_KINDS = ["Tensor", "Point", "Line2", "Line3", "Plane", "Quadric", "Conic", "Transformation", "PointCollection", "LineCollection", "QuadricCollection",
+              "TransformationCollection", "Segment", "Polygon", "Circle->Conic", "absolute_conic->Conic", "infty->Line", "I->Point"]
+
+
+@st.composite
+def copy_case(draw, tier="quick"):
+    return {"kind": draw(st.sampled_from(COPY_KINDS)), "v": draw(Z.params(9)), "source": draw(st.sampled_from(["ndarray", "tensor"])), "flag": draw(st.sampled_from([None, None, "normalize_matrix", "is_dual", "dtype-float", "copy-true"])),
+            "norm": draw(st.sampled_from(["as-is", "unit-pseudo-determinant", "diag-1-1--1"]))}
+
+
+def run_copy(c):
+    """constructors called without copy=False (the documented default of the underlying numpy constructor is to copy): the new
+    object does not share memory with the array / tensor it was built from, so writing into it leaves the source - another
+    object, a user array or a module constant - bit for bit unchanged. Sources include matrices that already have the
+    normalisation the constructor would apply."""
+    from geometer.base import Tensor as T
+
+    from ..runner import Checker
+
+    kind, v = c["kind"], [float(x) for x in c["v"]]
+    if kind not in COPY_KINDS or len(v) < 16:
+        raise Skip("malformed")
+    sym = lambda n: (lambda m: m + m.T + np.diag([3.0] * (n - 1) + [-5.0]))(np.array(v[: n * n]).reshape(n, n))  # noqa: E731
+    if c["norm"] == "diag-1-1--1":
+        sym = lambda n: np.diag([1.0] * (n - 1) + [-1.0])  # noqa: E731
+    kw = {}
+    const = None
+    if kind == "Tensor":
+        cls, arr = T, np.array(v[:6]).reshape(2, 3)
+    elif kind == "Point":
+        cls, arr = G.Point, np.array(v[:3] if v[15] % 2 else v[:4])
+    elif kind == "Line2":
+        cls, arr = G.Line, np.array(v[:3])
+    elif kind == "Line3":
+        cls, arr = G.Line, np.asarray(Z.plucker_dual(v[:3] + [1.0], v[3:6] + [1.0]), float)
+    elif kind == "Plane":
+        cls, arr = G.Plane, np.array(v[:4])
+    elif kind in ("Quadric", "Conic"):
+        n = 3 if kind == "Conic" or v[15] % 2 else 4
+        cls, arr = (G.Conic if kind == "Conic" else G.Quadric), sym(n)
+    elif kind == "Transformation":
+        cls, arr = G.Transformation, np.array(v[:9]).reshape(3, 3) + 7 * np.eye(3)
+    elif kind == "PointCollection":
+        cls, arr = PointCollection, np.array(v[:12]).reshape(4, 3)
+    elif kind == "LineCollection":
+        cls, arr = LineCollection, np.array(v[:12]).reshape(4, 3)
+    elif kind == "QuadricCollection":
+        cls, arr = QuadricCollection, np.stack([sym(3), sym(3) * 2, np.diag([1.0, 2.0, -1.0])])
+    elif kind == "TransformationCollection":
+        cls, arr = TransformationCollection, np.stack([np.eye(3), np.array(v[:9]).reshape(3, 3) + 7 * np.eye(3)])
+    elif kind == "Segment":
+        cls, arr = G.Segment, np.array([v[:2] + [1.0], v[2:4] + [1.0]])
+    elif kind == "Polygon":
+        cls, arr = G.Polygon, np.array([[0.0, 0.0, 1.0], [4.0, 0.0, 1.0], [4.0, 3.0, 1.0], [v[0], 5.0 + abs(v[1]), 1.0]])
+    elif kind == "Circle->Conic":
+        cls, const = G.Conic, G.Circle(G.Point(v[0], v[1]), 1.0 + abs(v[2]))
+    elif kind == "absolute_conic->Conic":
+        cls, const = G.Conic, G.curve.absolute_conic
+    elif kind == "infty->Line":
+        cls, const = G.Line, G.point.infty
+    else:
+        cls, const = G.Point, G.point.I
+    if not np.all(np.isfinite(arr if const is None else const.array)):
+        raise Skip("not finite")
+    quadric_like = kind in ("Quadric", "Conic", "QuadricCollection", "Circle->Conic", "absolute_conic->Conic")
+    if const is None and quadric_like and c["norm"] == "unit-pseudo-determinant":
+        # the normalisation that normalize_matrix=True applies, already applied to the source
+        w = np.abs(np.linalg.eigvalsh(arr))
+        arr = arr / (np.prod(np.where(w > 1e-8, w, 1), axis=-1) ** (1 / arr.shape[-1]))[..., None, None] if arr.ndim == 3 else arr / np.prod(np.where(w > 1e-8, w, 1)) ** (1 / arr.shape[-1])
+    flag = c["flag"]
+    if flag in ("normalize_matrix", "is_dual"):
+        if not quadric_like:
+            flag = None
+        else:
+            kw[flag] = True
+    elif flag == "dtype-float":
+        kw["dtype"] = np.float64 if (const is None or not np.iscomplexobj(const.array)) else np.complex128
+    elif flag == "copy-true":
+        kw["copy"] = True
+    if const is not None:
+        source_obj, source_arr = const, const.array
+    elif c["source"] == "tensor":
+        base_cls = {"Conic": G.Conic, "Quadric": G.Quadric}.get(kind, cls)
+        source_obj = base_cls(arr.copy())
+        source_arr = source_obj.array
+    else:
+        source_obj = source_arr = arr.copy()
+    before = source_arr.copy()
+    site = f"constructor:{kind}:{'constant' if const is not None and kind != 'Circle->Conic' else c['source']}" + (f":{flag}" if flag else "")
+    new, f = call(site, lambda: cls(source_obj, **kw))
+    if f:
+        raise Skip("constructor rejects this combination")
+    ck = Checker()
+    ck.check(not np.shares_memory(new.array, source_arr), site + ":shares-memory-with-source", c["norm"])
+    if new.array.flags.writeable:
+        new.array[...] = new.array * 0 + 9  # what item assignment on the new object does
+    ck.check(np.array_equal(source_arr, before), site + ":source-changed-by-writing-to-the-new-object", (c["norm"], C.short(source_arr.tolist())))
+    if not np.array_equal(source_arr, before):
+        source_arr[...] = before  # restore module constants for the following cases
+    return ck.result()
+
+
+LAWS.append(
+    Law("constructors_copy_their_arguments", lambda tier: copy_case(tier), run_copy, lambda c: True,
+        lambda c: [c["kind"], c["source"]] + ([c["flag"]] if c["flag"] else []) + (["already-normalised:normalize_matrix"] if c["flag"] == "normalize_matrix" and (c["norm"] != "as-is" or c["kind"] in ("Circle->Conic", "absolute_conic->Conic")) and c["kind"] in ("Quadric", "Conic", "QuadricCollection", "Circle->Conic", "absolute_conic->Conic") else []),
+        {"quick": 1200, "thorough": 15000}, "constructors without copy=False do not alias the array / tensor / module constant they are built from: writing into the new object leaves the source unchanged", shard=300,
+        mandatory=("already-normalised:normalize_matrix", "absolute_conic->Conic"))
+)
